@@ -65,6 +65,9 @@ def uri_probes(uri_pool, extra_tails=("1", "x/y", ""), alphabet=None, replaced=T
             add(p + c)
         for t in extra_tails:
             add(p + t)
+        if alphabet is None and p:
+            add(p + p)             # the prefix occurs again inside the identifier
+            add(p + "1" + p)
     add("zzz")
     add("\U0001d11e\u0301 ")
     return out
